@@ -516,6 +516,10 @@ MANIFEST = dict(
     'abstraction with instantiated pinv/solve/svd contracts.',
     note='pinv/solve/svd are contract stubs (full-rank genericity); '
     'math.sqrt(Nt) idealised as exact; floats as reals; MMSE->ZF limit '
-    'outside',
+    'outside'
+    ' Concrete data-representation / scale / boundary probes of the real'
+    ' code (dtype, container and memory-layout variants, argument'
+    ' immutability, magnitudes) accompany the symbolic runs; they are'
+    ' differential runs, not solver verdicts.',
     technique='symbolic execution on object arrays + contract stubs + '
     'linearised QF_LRA prover (z3)')
